@@ -269,3 +269,38 @@ func Choice(name string, natural, allowed bool) bool {
 	}
 	return natural
 }
+
+var (
+	scoreSeed   atomic.Uint64 // 0 = off
+	scorePeriod atomic.Uint64
+)
+
+// ForceModes makes Score return 0 for about one evaluated prediction mode in
+// `period` (a deterministic function of seed, kind, mode and the natural
+// score), so that the intra-mode decisions of the lossy encoder take modes
+// the content alone would not have selected. seed 0 switches it off.
+func ForceModes(seed uint64, period uint64) {
+	if period == 0 {
+		period = 1
+	}
+	scorePeriod.Store(period)
+	scoreSeed.Store(seed)
+}
+
+// Score is consulted for every candidate intra prediction mode right after
+// its rate-distortion score was computed. Any mode is a valid choice: the
+// stream says which one was taken.
+func Score(kind string, mode int, score uint64) uint64 {
+	seed := scoreSeed.Load()
+	if seed == 0 {
+		return score
+	}
+	h := seed ^ score*0x9E3779B97F4A7C15 ^ uint64(mode+1)*0xC2B2AE3D27D4EB4F ^ uint64(len(kind))*0x165667B19E3779F9
+	h ^= h >> 29
+	h *= 0xBF58476D1CE4E5B9
+	h ^= h >> 32
+	if h%scorePeriod.Load() == 0 {
+		return 0
+	}
+	return score
+}
